@@ -19,6 +19,7 @@ func init() {
 		},
 		Assumptions: commonAssumptions,
 		Engines:     "GUARD, WHO, STATE, PATH",
+		TagMatrix:   [][]string{{"GOARCH=386"}},
 		Run:         runC18,
 	})
 }
